@@ -40,9 +40,11 @@ META = {
                      "str(int) / '{:+}'.format(int) produce canonical decimal numerals"],
     "assumptions": ["ring spans and branch lengths below 16^3 (documented limit): index suffix in 1..3"],
     "level_text": "Static language inclusion emit ⊆ accept for every token kind, plus canonical-spelling inclusion; all inputs.",
-    "level_note": "Clause-level: decodability of spelling and standardisation. The re-encoding fixed point and capacity-related "
-                  "rejections are value-level and not decided.",
-    "technique": "regular-language inclusion (automata from regex ASTs and from abstract string evaluation of the printers)",
+    "level_note": "Clause-level: decodability of spelling and standardisation, plus two necessary conditions of the re-encoding "
+                  "fixed point (numbers read and written back unchanged L6/L7; ring symbols before branches L8). The fixed point "
+                  "itself and capacity-related rejections are value-level and not decided.",
+    "technique": "regular-language inclusion (automata from regex ASTs and from abstract string evaluation of the printers) + "
+                 "path-sensitive abstract interpretation of the atom readers / printer + may-dataflow ordering rule over the fragment printer",
 }
 
 
